@@ -132,8 +132,16 @@ func chainRun(c *Ctx, net *Net, g *TxGen, f *Factory, o ChainRunOpts) {
 			cands = append(cands, signTx(tx, net.Founder))
 			c.Probe("tx_set_reward")
 		}
+		// sometimes a block gas limit so small that candidates (also sub-transactions in the middle of a box) do not
+		// fit: the miner must leave them out without a trace (the header gas limit is the miner's choice)
+		f.GasLimitOverride = 0
+		if h > 1 && c.Draw("gaslimit", 5) == 4 {
+			f.GasLimitOverride = uint64(30000 + c.Draw("gaslimit", 300000))
+			c.Fault("small_block_gas_limit")
+		}
 		c.Context = fmt.Sprintf("mining block %d by deputy %d with candidates %v", h, d, txsSummary(cands))
 		blk, invalid, err := f.Mine(d, parent, uint32(now), cands, "")
+		f.GasLimitOverride = 0
 		if err != nil {
 			// the honest miner could not produce a block (e.g. term not known): stop the chain here
 			c.Probe("mine_error")
@@ -181,6 +189,12 @@ func chainRun(c *Ctx, net *Net, g *TxGen, f *Factory, o ChainRunOpts) {
 				}
 			} else if d >= len(net.Deputies) {
 				rec.Miner = &Deputy{Node: who.Node, Miner: who.Miner, Income: &keyInfo{Addr: who.Miner.Addr}, Rank: who.Rank}
+			}
+		}
+		for _, d := range rec.Post {
+			if d[slotKey(common.BigToHash(big.NewInt(0x12)))] != "" {
+				c.Probe("block_context_recorded_by_contract") // BLOCKHASH(number-2) etc. went into storage (txgen stream envc)
+				break
 			}
 		}
 		if o.OnBlock != nil && !o.OnBlock(rec) {
